@@ -163,6 +163,22 @@ class Source:
         return self.text[mm.start():c + 1]
 
 
+def item_attrs(src, kind, name):
+    """Text of the attribute / doc-comment lines directly above a top-level item."""
+    mm = re.search(r'(?m)^[ \t]*(pub(\([^)]*\))?\s+)?%s\s+%s\b[^{;]*\{' % (kind, re.escape(name)), src.m)
+    if not mm:
+        raise LostAnchor('%s: %s %s not found' % (src.path, kind, name))
+    lines = src.text[:mm.start()].split('\n')
+    out = []
+    for ln in reversed(lines[:-1] if lines and lines[-1].strip() == '' else lines):
+        st = ln.strip()
+        if st.startswith('#[') or st.startswith('///') or st.startswith('//'):
+            out.append(st)
+        else:
+            break
+    return '\n'.join(reversed(out))
+
+
 # ---- operations on a body (text + its mask) ----------------------------------------------
 
 class Body:
